@@ -313,9 +313,7 @@ func TestVerifC18(t *testing.T) {
 			vh18Reuse(o, ty, mk(&vh01Gen{r: r, profile: "bigpay", payLen: 5000}), &last, "same-size-payload")
 			vh18Reuse(o, ty, mk(&vh01Gen{r: r, profile: "bigpay", payLen: 3}), &last, "small-payload")
 			vh18Reuse(o, ty, mk(&vh01Gen{r: r, profile: "zero"}), &last, "empty")
-			for i := 0; i < 3; i++ {
-				vh18Reuse(o, ty, mk(&vh01Gen{r: r, profile: "random"}), &last, "random")
-			}
+			vh18Reuse(o, ty, mk(&vh01Gen{r: r, profile: "random"}), &last, "random")
 		}
 	}
 
@@ -342,7 +340,11 @@ func TestVerifC18(t *testing.T) {
 			for i := 7; i < len(other); i++ {
 				other[i] = 0
 			}
-			for _, k := range []int{1, body / 2, body - 1} {
+			cuts := []int{1, body - 1}
+			if thorough {
+				cuts = []int{1, body / 2, body - 1}
+			}
+			for _, k := range cuts {
 				if k < 1 || k >= body {
 					continue
 				}
@@ -372,7 +374,11 @@ func TestVerifC18(t *testing.T) {
 			g.fill(reflect.ValueOf(m).Elem())
 			base := vh18Frame(m, tag(r.Intn(65536)))
 			body := len(base) - 7
-			for _, k := range []int{body, 0, 1, body / 2, body - 1, body - 4} {
+			ks := []int{body, 1, body / 2, body - 1}
+			if thorough {
+				ks = []int{body, 0, 1, body / 2, body - 1, body - 4}
+			}
+			for _, k := range ks {
 				if k < 0 || k > body || (k == body && rep > 0) {
 					continue
 				}
